@@ -1,12 +1,14 @@
 #!/bin/bash
-# every registered check, one after the other, on the unchanged tree: build/all_<tier>.txt
-cd /verif
+# every registered check, one after the other, on the unchanged tree: build/all_<tier>.txt     usage: tools/run_all.sh [quick|thorough]
+cd "$(dirname "$0")/.."
 tier=${1:-quick}
+mkdir -p build
+[ -f coq/Props/C01.vo ] || ./setup.sh > build/_setup.log 2>&1
 : > build/all_$tier.txt
 for p in C01 C02 C03 C04 C05 C06 C07 C08 C09 C10 C11 C12 C13 C14 C15 C16 C17 C18 C19 C20; do
   s=$(date +%s)
   timeout 7200 ./check $p --tier $tier > build/all_${tier}_$p.log 2>&1
   rc=$?
-  echo "$p rc=$rc $(( $(date +%s) - s ))s viol=$(grep -c '^VIOLATION' build/all_${tier}_$p.log) known=$(grep -c '^KNOWN-FINDING' build/all_${tier}_$p.log)" >> build/all_$tier.txt
+  echo "$p rc=$rc $(( $(date +%s) - s ))s viol=$(grep -c '^VIOLATION' build/all_${tier}_$p.log) known=$(grep -c '^KNOWN-FINDING' build/all_${tier}_$p.log) seed=${VERIF_SEED:-0}" | tee -a build/all_$tier.txt
 done
-echo ALL-DONE >> build/all_$tier.txt
+echo ALL-DONE | tee -a build/all_$tier.txt
